@@ -26,6 +26,16 @@ ImplDev == {"PauseRace", "StepOutReadsTopOfStack"}
 RaceDev == {"PauseRace"}
 StepOutDev == {"StepOutReadsTopOfStack"}
 NextDev == {"NextIgnoresCallDepth"}
+SwallowDev == {"StepSwallowsTestEnd"}
+FilesDev == {"SetBreakpointsForgetsOtherFiles"}
+(* 1 nop / 2 brk ; 1 nop / 2 <failing assertion> nop / 3 brk *)
+ProgTiny == <<I("nop", 0), I("brk", 0)>>
+ProgFail == <<I("nop", 0), I("fail", 0), I("brk", 0)>>
+Id2 == <<1, 2>>
+BpsTiny == {{1}}
+NoLib == {}
+LibSub == {6, 7}          \* ProgLoopSub with its subroutine in a second file
+BpsFiles == {{3}, {6}}
 (* recursion: the address behind `go: jsr f` is reached inside the nested call first                              *)
 (* 1 ldx #2 / 2 jsr f / 3 nop / 4 brk / 5 f: dex / 6 bne go / 7 jmp out / 8 go: jsr f / 9 out: rts              *)
 ProgRecur == <<I("ldx", 2), I("jsr", 5), I("nop", 0), I("brk", 0), I("dex", 0), I("bne", 8), I("jmp", 9), I("jsr", 5), I("rts", 0)>>
